@@ -186,7 +186,15 @@ func (w *World) close() {
 		w.o.Close()
 	}
 	if w.k != nil && !w.dead {
-		w.k.Close()
+		// Chain.Close() is not this property's subject: do not let it wedge the run
+		done := make(chan bool, 1)
+		go func() { w.k.Close(); done <- true }()
+		select {
+		case <-done:
+		case <-time.After(15 * time.Second):
+			w.r.Hit("chain-close-timeout")
+			os.RemoveAll(w.dir)
+		}
 	}
 }
 
